@@ -34,13 +34,14 @@ enum OpKind {
 	MUTREQ,      // a=method idx b=path idx c=mutation d=value idx: a well-formed request with one member removed or mistyped
 	RAWREQ,      // a=shape b=id variant c=extra: request object of an unusual but model-decidable shape (see world.hpp)
 	BATCH,       // a=count: the next `a` request ops are sent by this connection as one batch array
+	PREFIX,      // a=0: zero length prefix (must be skipped), a>0: a length above the configured maximum (connection ends)
 	PARTIAL,     // a=cut position b=what: only the first bytes of a well-formed framed request arrive; the stream is useless afterwards
 	WSFRAME,     // a=opcode b=flags(bit0 fin,bit1 masked,bits2-4 rsv) c=lenenc d=declared-length mode s=payload
 	NKINDS
 };
 
 static const char *const kind_names[] = {"connect", "end", "bytes", "msg", "add", "remove", "change", "fetch", "unfetch", "get", "set", "call",
-                                          "reply", "config", "info", "auth", "passwd", "advance", "wplan", "drain", "fault", "chunk", "junk", "mutreq", "rawreq", "batch", "partial", "wsframe"};
+                                          "reply", "config", "info", "auth", "passwd", "advance", "wplan", "drain", "fault", "chunk", "junk", "mutreq", "rawreq", "batch", "prefix", "partial", "wsframe"};
 
 enum ReplyMode { RP_RESULT = 0, RP_ERROR = 1, RP_FORGED = 2, RP_DUPLICATE = 3, RP_OTHERS_RID = 4, RP_NMODES };
 enum IdMode { ID_NUM = 0, ID_STR = 1, ID_NONE = 2 };
@@ -69,6 +70,10 @@ struct Scenario {
 	int end = 0;       // 0 close all then SIGTERM, 1 SIGTERM with connections open
 	int order_seed = 0; // event-batch ordering policy (0 = FIFO)
 	bool local_flag = false; // start daemon with -l
+	int chunk_all = 0;       // > 0: every read() on a connection returns at most this many bytes
+	int junk_all = -1;       // >= 0: after a short read the unused tail of the caller's buffer is overwritten with pattern #junk_all
+	int early_prefix = 0;    // != 0: a prefix of the next step's message (other connection) already arrives during the current step
+	std::vector<std::vector<int>> variants; // C09: alternative schedules {dribble, chunk_all, junk_all, early_prefix} that must give identical output
 	int dribble = 0;         // != 0: in single-operation steps every delivery is split in two arrivals (second after the daemon went idle)
 };
 
@@ -147,6 +152,10 @@ inline js::Value to_json(const Scenario &sc)
 	o.set("order_seed", js::Value::num(sc.order_seed));
 	if (sc.local_flag) o.set("local_flag", js::Value::boolean(true));
 	if (sc.dribble) o.set("dribble", js::Value::num(sc.dribble));
+	if (sc.chunk_all) o.set("chunk_all", js::Value::num(sc.chunk_all));
+	if (sc.junk_all >= 0) o.set("junk_all", js::Value::num(sc.junk_all));
+	if (sc.early_prefix) o.set("early_prefix", js::Value::num(sc.early_prefix));
+	if (!sc.variants.empty()) { js::Value vs = js::Value::arr(); for (auto &v : sc.variants) { js::Value a = js::Value::arr(); for (int x : v) a.push(js::Value::num(x)); vs.push(a); } o.set("variants", vs); }
 	js::Value ops = js::Value::arr();
 	for (auto &op : sc.ops) ops.push(to_json(op));
 	o.set("ops", ops);
@@ -171,6 +180,8 @@ inline bool from_json(const js::Value &o, Scenario &sc)
 	sc.order_seed = geti(o, "order_seed");
 	if (auto *v = o.get("local_flag")) sc.local_flag = v->b;
 	sc.dribble = geti(o, "dribble");
+	sc.chunk_all = geti(o, "chunk_all"); sc.junk_all = geti(o, "junk_all", -1); sc.early_prefix = geti(o, "early_prefix");
+	if (auto *vs = o.get("variants")) for (auto &v : vs->a) { std::vector<int> x; for (auto &e : v.a) x.push_back((int)e.d); sc.variants.push_back(x); }
 	auto *ops = o.get("ops");
 	if (!ops) return false;
 	for (auto &x : ops->a) {
